@@ -66,3 +66,10 @@ manifest = {
 }
 json.dump(manifest, open(os.path.join(root, "MANIFEST.json"), "w"), indent=1)
 print(f"{len(checks)} checks, {len(na)} not claimed")
+
+# Never leave an invalid manifest behind: validate against the schema with the tooling venv's jsonschema.
+import subprocess as _sp
+_r = _sp.run(["python3-vt", "-c", "import json,jsonschema,sys; jsonschema.validate(json.load(open('/verif/MANIFEST.json')), json.load(open('/root/.vp/MANIFEST.schema.json')))"], capture_output=True, text=True)
+if _r.returncode != 0:
+    print("MANIFEST.json does NOT validate:", _r.stderr.strip().splitlines()[-1] if _r.stderr.strip() else "?")
+    raise SystemExit(1)
